@@ -212,6 +212,44 @@ def gen_abort_in_post_stop(rng):
     return {"actors": actors, "msgs": msgs, "ops": ops}
 
 
+def gen_fail_with_pending_stop(rng):
+    """A callback after pre_start fails (Err or panic) while a graceful stop / drain request for the
+    same actor is already pending: the handler itself asked for the stop before failing, or an outside
+    stop arrived while the failing handler was parked.  The failure still wins: no post_stop, no
+    further handler, the supervisor is told ActorFailed (seeded regression C01-3: a 'stop pending'
+    fast path after the handler dropped the handler's Err and left through the graceful path)."""
+    trivial = ([], ("ok",))
+    fin = (rng.choice(["e", "e", "p"]), rng.choice([5, 6, 7]))
+    where = rng.choice(["msg", "msg", "msg", "sup", "ps"])
+    inside = rng.random() < 0.5          # the callback itself requests the stop
+    req = lambda: rng.choice([("x", 1, None), ("x", 1, 10), ("d", 1)])
+    body = ([("t",)] * rng.choice([0, 1]) + [req()] + [("t",)] * rng.choice([0, 1])) if inside else [("t",)] * rng.choice([0, 1]) + [("g", 1)]
+    failing = (body, fin)
+    sup0 = rng.choice([None, ([("t",)], ("ok",))])
+    actors = [{"pre": trivial, "ps": trivial, "stop": ([("t",)], ("ok",)), "sup": sup0, "link": None},
+              {"pre": trivial, "ps": failing if where == "ps" else trivial, "stop": ([("t",)], ("ok",)),
+               "sup": failing if where == "sup" else None, "link": 0}]
+    if where == "sup":
+        actors.append({"pre": trivial, "ps": trivial, "stop": trivial, "sup": None, "link": 1})
+    msgs = {1: failing if where == "msg" else trivial, 2: ([("t",)], ("ok",)), 3: trivial, 4: trivial}
+    ops = [("spawn", 0), ("settle",), ("spawn", 1), ("settle",)]
+    if where == "msg":
+        ops += [("send", 1, 1)]
+        if rng.random() < 0.5:
+            ops += [("send", 1, 2)]
+    elif where == "sup":
+        ops += [("spawn", 2), ("settle",)]      # ActorStarted(2) runs the failing supervision handler of 1
+    if not inside:
+        ops += [("settle",), rng.choice([("stop", 1, None), ("stop", 1, 10), ("drain", 1)])]
+        if rng.random() < 0.5:
+            ops += [("settle",)]
+        ops += [("open", 1)]
+    ops += [("settle",)]
+    if rng.random() < 0.5:
+        ops += [("send", 0, 2), ("settle",)]
+    return {"actors": actors, "msgs": msgs, "ops": ops}
+
+
 # ------------------------------------------------------------------ rendering
 
 def eff_line(e):
@@ -564,6 +602,8 @@ def gen_local(rng, k, focus):
     trees and supervision bursts (all compared with the model, c_local = true)"""
     if k % 8 == 7:
         sc = gen_abort_in_post_stop(rng)
+    elif k % 20 == 13:
+        sc = gen_fail_with_pending_stop(rng)
     elif k % 5 < 3:
         sc = gen_scenario(rng, focus if k % 2 else "mixed", link_p=0.0)
     elif k % 5 == 3:
@@ -611,6 +651,8 @@ def run_loop_check(chk, oracle_fn, focus, what, accept=lambda o: o == "true", co
     for k in range(n_cases):
         if k % 40 == 39:
             scs.append(gen_many_children(chk.rng))
+        elif k % 20 == 13:
+            scs.append(gen_fail_with_pending_stop(chk.rng))
         elif k % 8 == 7:
             scs.append(gen_abort_in_post_stop(chk.rng))
         elif k % 5 == 4:
